@@ -14,6 +14,12 @@ CHECKS = {
                   'unchanged, copy independent) is decided by z3 for ALL finite values/errors of the listed shapes on every '
                   'feasible path of the real code; counterexamples are replayed in float64. Bounded by shape and chain length.',
              design='DESIGN.md section 4 C08'),
+ 'C09': dict(technique='bounded symbolic execution of the real slicing code (symrun + z3): LIA over unbounded symbolic start/stop for the bins index arithmetic; forked concretisation for numpy indexing end to end',
+             text='(A) for every integer/None start and stop (unbounded) and 1..5(8) cells per axis z3 decides that the real '
+                  '_get_bins_items/_get_bins_slice select exactly the edges/centres of the retained cells; (B) real __getitem__ '
+                  'end to end on arrays of distinct symbolic cells for every start/stop of a stated range; (C) squeeze. '
+                  'Counterexamples are replayed on plain numpy arrays.',
+             design='DESIGN.md section 4 C09'),
 }
 
 NOT_YET = {}
